@@ -252,10 +252,8 @@ def r12_2(ctx, rep, BO, UO):
         without an entry raises"""
         m = cr.methods[method]
         p_ = m.params[1]
-        kvar = None
-        for st_ in m.body:
-            if isinstance(st_, ast.Assign) and unparse(st_.value) == f"{p_}.operator.kind" and isinstance(st_.targets[0], ast.Name):
-                kvar = st_.targets[0].id
+        from . import shared as _shk
+        kvar = _shk.ensure_kind_variable(m, p_)
         table = _dict_literal(cr.class_attrs[table_attr])
         if kvar is None:
             # the kind may be used without a temporary: give it one
@@ -488,7 +486,18 @@ def r12_5(ctx, rep):
         # a numeric literal is converted from its TEXT, once: int(...) / float(...) are applied to the lexeme slice only (an integer
         # that went through float has lost its digits beyond 2**53; a float turned into int is another literal)
         convs = [c_ for c_ in calls_in(f.node) if isinstance(c_.func, ast.Name) and c_.func.id in ("int", "float", "round", "complex") and c_.args]
-        indirect = [c_ for c_ in convs if unparse(c_.args[0]) != "self.code[self.start:self.current]"]
+        def converted_value(e, depth=0):
+            """is `e` (the argument of a conversion) itself the result of a conversion or of arithmetic - not a piece of text?"""
+            if isinstance(e, ast.Call) and isinstance(e.func, ast.Name) and e.func.id in ("int", "float", "round", "complex", "abs"):
+                return True
+            if isinstance(e, (ast.BinOp, ast.UnaryOp)) and not isinstance(getattr(e, "op", None), ast.Add):
+                return True
+            if isinstance(e, ast.Name) and depth < 3:
+                ds_ = [s_ for s_ in walk_local(f.node) if isinstance(s_, ast.Assign) and any(unparse(t_) == e.id for t_ in s_.targets)]
+                return any(converted_value(d_.value, depth + 1) for d_ in ds_)
+            return False
+
+        indirect = [c_ for c_ in convs if converted_value(c_.args[0])]
         obl(rep, f, indirect[0] if indirect else f.node, "R12.5", not indirect, f"{name}: int / float are applied to the lexeme text only", "",
             f"`{short(indirect[0], 60) if indirect else ''}` converts a value that is not the lexeme text: the literal is no longer the Python literal it spells")
         try:
